@@ -43,6 +43,15 @@ def lazyjson_roundtrip(tier, seed):
                     r = walk(node[i], want[i], path + "[%d]" % i)
                     if r:
                         return r
+                    r = walk(node[i - len(want)], want[i], path + "[%d]" % (i - len(want)))  # the same element counted from the end
+                    if r:
+                        return r
+                for bad in (len(want), -len(want) - 1):
+                    try:
+                        got = node[bad]
+                        return "node %s[%d] with %d elements returns %r instead of raising IndexError" % (path, bad, len(want), got.load() if isinstance(got, lj.LJNode) else got)
+                    except IndexError:
+                        pass
             return None
         return None if node == want and type(node) is type(want) else "leaf %s reads %r, stored %r" % (path, node, want)
 
